@@ -86,7 +86,7 @@ func c25aNewNode(t *testing.T, filter string) *c25aNode {
 	if err := s.Bootstrap(NewServer(s.ID(), s.Addr(), true)); err != nil {
 		t.Fatalf("bootstrap: %v", err)
 	}
-	if _, err := s.WaitForLeader(10 * time.Second); err != nil {
+	if _, err := s.WaitForLeader(120 * time.Second); err != nil {
 		t.Fatalf("leader: %v", err)
 	}
 	n := &c25aNode{s: s, ch: make(chan *proto.CDCIndexedEventGroup, 4096), filter: filter}
